@@ -46,6 +46,7 @@ op = st.one_of(
     st.tuples(st.just("send"), slot, st.sampled_from([0, 3, 20, 300, 2000]), st.sampled_from([0, 1, -1])),
     st.tuples(st.just("burst"), slot, st.integers(2, 6), st.sampled_from([0, 1, -1])),
     st.tuples(st.just("connect-many"), st.lists(slot, min_size=2, max_size=4, unique=True)),
+    st.tuples(st.just("halfopen"), st.integers(0, 5), st.integers(2, 4)),   # key exchange done, challenge never answered: crafted datagrams
     st.tuples(st.just("kick-on-disconnect"), slot),      # the handler's next disconnect event kicks that other client
     st.tuples(st.just("connect-sending"), slot, st.integers(1, 3)),   # the client sends from inside its connect callback
     st.tuples(st.just("ssend"), slot, st.sampled_from([0, 3, 20, 300, 2000]), st.sampled_from([0, 1, -1])),
@@ -240,6 +241,36 @@ def body(ctx, c):
                     slots[k] = w.add_client(laddr=addrs[k])
                     slots[k].connect()
                     step(4)
+            elif name == "halfopen":
+                from vp.props import c11 as C11
+                atk = C11.Attacker(w, c["seed"] * 31 + o[1])
+                haddr = ("10.8.0.%d" % (o[1] + 1), 8800 + o[1])
+                if haddr not in w.ctxt.connections and haddr not in w.ctxt.temp_connections:
+                    priv = atk.key()
+                    got = []
+                    hook = lambda em: got.append(em) if em.dst == haddr else None
+                    w.on_emit.append(hook)
+                    d = W.build_datagram(True, int(w.clock.t), 1, 0, 0, W.T_CLIENT_HELLO, [(1, W.T_CLIENT_HELLO, atk.hello_msg(priv))])
+                    w.net.push(w.clock.t + 0.001, w.server_addr, haddr, d)
+                    step(3)
+                    w.on_emit.remove(hook)
+                    p = W.parse_datagram(got[0].data, None) if got else None
+                    if p is not None and p.ok and p.type == W.T_SERVER_HELLO:
+                        from mpgameserver import crypto as mcrypto
+                        sh = Serializable.loadb(p.msgs[0][2], server_public_key=None)
+                        key = mcrypto.ecdh_client(priv, sh.server_pubkey, sh.salt)
+                        # authenticated under the agreed key, typed CHALLENGE_RESP so that the half-open gate lets it through,
+                        # carrying application messages but no valid challenge: the handler must hear nothing of this peer
+                        msgs = [(2, W.T_CHALLENGE, b"\x00\x01")] + [(3 + i, W.T_APP, b"from-a-peer-that-never-connected-%d" % i) for i in range(o[2] - 1)]
+                        w.ledger.sent(("c", haddr), ("s", haddr), msgs[1][2], "NONE", w.clock.t, "attacker")
+                        for i in range(2, o[2]):
+                            w.ledger.sent(("c", haddr), ("s", haddr), msgs[i][2], "NONE", w.clock.t, "attacker")
+                        d2 = W.build_datagram(True, int(w.clock.t), 2, p.seq, 0, W.T_CHALLENGE, msgs, key=key)
+                        w.net.push(w.clock.t + 0.001, w.server_addr, haddr, d2)
+                        d3 = W.build_datagram(True, int(w.clock.t), 3, p.seq, 0, W.T_CHALLENGE, [(9, W.T_APP, b"x"), (10, W.T_DISCONNECT, b"")], key=key)
+                        w.net.push(w.clock.t + 0.02, w.server_addr, haddr, d3)
+                        flags.add("authenticated-half-open-peer")
+                        step(3)
             elif name == "kick-on-disconnect":
                 auto.kick_on_disconnect = addrs[o[1]]
                 flags.add("kick-from-disconnect-event")
